@@ -321,7 +321,13 @@ pub fn permutation(n: usize, mut seed: u64) -> Vec<usize> {
 
 /// Build the application. `order`: None = the generated order; Some(seed) = every item list shuffled.
 pub fn build(app: &AppDesc, order: Option<u64>) -> Ohkami {
-    let mut o = with_fangs(&app.fangs, app.fang_pat);
+    let o = with_fangs(&app.fangs, app.fang_pat);
+    build_into(app, order, o)
+}
+
+/// Like `build`, but the root application object (with whatever fangs) is supplied by the caller.
+pub fn build_into(app: &AppDesc, order: Option<u64>, o: Ohkami) -> Ohkami {
+    let mut o = o;
     let idx: Vec<usize> = match order {
         None => (0..app.items.len()).collect(),
         Some(s) => permutation(app.items.len(), s),
